@@ -58,9 +58,9 @@ Definition io_ok (e : env) (a : act) : env :=
 Definition io_fail (e : env) (a : act) : env :=
   {| e_acts := AFail a :: e_acts e; e_disk := e_disk e; e_fault := None; e_fx := e_fx e; e_m := e_m e |}.
 
-Lemma io_char a e : is_delete a = false ->
+Lemma io_char a e : is_delete a = false -> is_txn a = false ->
   io a e = match e_fault e with Some O => (false, io_fail e a) | _ => (true, io_ok e a) end.
-Proof. intros H. unfold io, io_ok, io_fail. rewrite H. destruct (e_fault e) as [[|n]|]; reflexivity. Qed.
+Proof. intros H H'. unfold io, io_ok, io_fail. rewrite H, H'. destruct (e_fault e) as [[|n]|]; reflexivity. Qed.
 
 Lemma e_fault_io_ok e a :
   e_fault (io_ok e a) = match e_fault e with Some (S n) => Some n | _ => None end.
